@@ -131,7 +131,9 @@ fn main() {
     // payload values (language S1): what to_syntax prints, from_syntax reads back as the same node - also for symbols that
     // are spelled like odd numerals, signs, keywords of other payload types
     let mut k = 2 * input.nodes.len();
-    let syms = ["a", "foo", "x1", "007", "+5", "-01", "00", "01x", "0", "7", "-7", "+", "-", "0x", "1_000", "true", "false", "'a'", "1.5", "1e3", "\u{e9}"];
+    let syms = ["a", "foo", "x1", "007", "+5", "-01", "00", "01x", "0", "7", "-7", "+", "-", "0x", "1_000", "true", "false", "'a'", "1.5", "1e3", "\u{e9}",
+                // symbols spelled like an OPERATOR of the language that takes arguments (D26): a bare `tag` is not a `tag` node
+                "const", "tag", "i", "chr"];
     let mut pl: Vec<(String, S1)> = Vec::new();
     for sy in syms {
         pl.push((format!("Sym:{sy}"), S1::Sym(Symbol::from(sy))));
